@@ -1,0 +1,8 @@
+//go:build verif
+
+package concurrency
+
+import "k8s.io/utils/clock"
+
+// VerifSetClock replaces the clock used for the grace-period timer (verification harness only).
+func (c *RunnerCloserManager) VerifSetClock(clk clock.Clock) { c.clock = clk }
